@@ -163,6 +163,7 @@ func (un *Unit) execInstr(fr *Frame, st *State, in ssa.Instruction) {
 			un.nonNil(st, fr, addr, "store", in.Pos())
 		}
 		p := un.placeOf(st, addr, et)
+		un.monotoneStore(fr, st, p, v.t, in.Pos())
 		un.storePlace(st, p, v.t)
 		un.trackStoredFn(p, v)
 	case *ssa.Phi:
